@@ -237,6 +237,91 @@ theorem qubitTermFactors_shape (n : Nat) (t : Term) (c : GQ)
       omega
     rw [hr, hc, this]; exact ⟨rfl, rfl⟩
 
+/-! ### coordinate assembly (`coo_matrix(...).tocsc()`, `eliminate_zeros`) keeps the dense matrix -/
+
+theorem getL_cons (e : Nat × Nat × GQ) (l : List (Nat × Nat × GQ)) (r c : Nat) :
+    getL (e :: l) r c = (if e.1 = r ∧ e.2.1 = c then e.2.2 else 0) + getL l r c := by
+  simp only [getL, List.foldr_cons]
+  split
+  · rfl
+  · rw [gq_zero_add]
+
+theorem getL_insertBy (key : Nat × Nat × GQ → Nat × Nat) (e : Nat × Nat × GQ) (l : List (Nat × Nat × GQ)) (r c : Nat) :
+    getL (insertBy key e l) r c = getL (e :: l) r c := by
+  induction l with
+  | nil => rfl
+  | cons x l ih =>
+    simp only [insertBy]
+    split
+    · rfl
+    · rw [getL_cons, ih, getL_cons, getL_cons, getL_cons, ← gq_add_assoc, ← gq_add_assoc,
+        gq_add_comm (if x.1 = r ∧ x.2.1 = c then x.2.2 else 0)]
+
+theorem getL_sortBy (key : Nat × Nat × GQ → Nat × Nat) (l : List (Nat × Nat × GQ)) (r c : Nat) :
+    getL (sortBy key l) r c = getL l r c := by
+  induction l with
+  | nil => rfl
+  | cons e l ih =>
+    simp only [sortBy, List.foldr_cons] at ih ⊢
+    rw [getL_insertBy, getL_cons, ih, getL_cons]
+
+theorem getL_filter_nonzero (l : List (Nat × Nat × GQ)) (r c : Nat) :
+    getL (l.filter fun e => e.2.2 != 0) r c = getL l r c := by
+  induction l with
+  | nil => rfl
+  | cons e l ih =>
+    by_cases h : e.2.2 = 0
+    · have : (e.2.2 != 0) = false := by simp [h]
+      rw [List.filter_cons]
+      simp only [this, Bool.false_eq_true, if_false]
+      rw [ih, getL_cons, h]
+      split <;> rw [gq_zero_add]
+    · have : (e.2.2 != 0) = true := by simp [h]
+      rw [List.filter_cons]
+      simp only [this, if_true]
+      rw [getL_cons, ih, getL_cons]
+
+/-- the merge of adjacent equal coordinates (duplicates are summed) -/
+theorem getL_merge (l : List (Nat × Nat × GQ)) (r c : Nat) :
+    getL (l.foldr (fun e acc =>
+      match acc with
+      | x :: rest => if x.1 = e.1 ∧ x.2.1 = e.2.1 then (e.1, e.2.1, e.2.2 + x.2.2) :: rest else e :: acc
+      | [] => [e]) []) r c = getL l r c := by
+  induction l with
+  | nil => rfl
+  | cons e l ih =>
+    simp only [List.foldr_cons]
+    generalize hacc : (l.foldr (fun e acc =>
+      match acc with
+      | x :: rest => if x.1 = e.1 ∧ x.2.1 = e.2.1 then (e.1, e.2.1, e.2.2 + x.2.2) :: rest else e :: acc
+      | [] => [e]) []) = acc at ih
+    rw [getL_cons, ← ih]
+    cases acc with
+    | nil => simp [getL_cons]
+    | cons x rest =>
+      simp only
+      split
+      · rename_i hk
+        rw [getL_cons, getL_cons]
+        simp only
+        by_cases hrc : e.1 = r ∧ e.2.1 = c
+        · have hx : x.1 = r ∧ x.2.1 = c := ⟨by rw [hk.1, hrc.1], by rw [hk.2, hrc.2]⟩
+          simp only [hrc, hx, and_self, if_true, gq_add_assoc]
+        · have hx : ¬ (x.1 = r ∧ x.2.1 = c) := fun h => hrc ⟨by rw [← hk.1, h.1], by rw [← hk.2, h.2]⟩
+          simp only [hrc, hx, if_false, gq_zero_add]
+      · rw [getL_cons]
+
+/-- `coo_assembly_sound`: summing duplicates, sorting and eliminating zeros keep every dense
+entry, and no explicit zero is left -/
+theorem canonEntries_get (es : List (Nat × Nat × GQ)) (r c : Nat) :
+    getL (canonEntries es) r c = getL es r c ∧ ∀ e ∈ canonEntries es, e.2.2 ≠ 0 := by
+  unfold canonEntries
+  simp only
+  refine ⟨(getL_filter_nonzero _ r c).trans ((getL_merge _ r c).trans (getL_sortBy _ _ r c)), ?_⟩
+  intro e he
+  have := (List.mem_filter.mp he).2
+  simpa using this
+
 end C06
 end Proofs
 end OFV
